@@ -202,6 +202,16 @@ def run_limit(sh, case, driver='limit'):
             limit_signal(times, sig, start=start, stop=stop)
     except Exception as e:
         vs.append({'mechanism': 'limit_signal:' + attach.exc_mechanism(e), 'message': 'limit_signal raised %r for start=%r stop=%r' % (e, start, stop)})
+    # event-locked time axis (negative times before the event) and limits that are exactly 0
+    t0 = float(int(n // 3)) / fs
+    times2 = times - t0
+    for (a2, b2) in ((0, None), (0, 0.5 * (n / fs - t0)), (None, 0), (0.0, None), (None, 0.0), (0, 0)):
+        try:
+            with quiet():
+                limit_signal(times2, sig, start=a2, stop=b2)
+            attach.count('C18:limit_signal_zero_limit')
+        except Exception as e:
+            vs.append({'mechanism': 'limit_signal:' + attach.exc_mechanism(e), 'message': 'limit_signal raised %r for start=%r stop=%r' % (e, a2, b2)})
     vs += [v for v in attach.take_violations() if v['property'] in (PROP, '_monitor')]
     for v in vs:
         sh.violate(case, v, driver)
